@@ -546,6 +546,14 @@ func (g *ExprGen) Gen(root interface{}, qdepth int, width int) string {
 		scope = append(scope, scopePath{PathInfo: p})
 	}
 	e := g.tree(scope, qdepth, width)
+	if g.R.Chance(0.02) {
+		// a very long expression: dozens of terms, several kilobytes
+		parts := []string{e}
+		for n := g.R.Range(20, 90); n > 0; n-- {
+			parts = append(parts, g.tree(scope, 0, 0))
+		}
+		e = strings.Join(parts, []string{" and ", " or "}[g.R.Intn(2)])
+	}
 	// layout variations that Expression() must preserve byte for byte
 	switch g.R.Intn(10) {
 	case 0:
@@ -574,5 +582,5 @@ func (g *ExprGen) GenQuantified(root interface{}, qdepth int) string {
 
 // SyntheticRoot is a datum-free vocabulary for parser-only workloads (C11).
 func SyntheticRoot(r *plan.Rand) interface{} {
-	return Build(DatumSpec{Gen: []string{"doc", "json", "tmap:any"}[r.Intn(3)], Seed: r.Uint64()})
+	return Build(DatumSpec{Gen: []string{"doc", "json", "tmap:any", "odd"}[r.Intn(4)], Seed: r.Uint64()})
 }
